@@ -12,9 +12,141 @@ class Undecidable(Exception):
     pass
 
 
+# ------------------------------------------------------------------ inline minimum-image expressions
+_PKG = None
+INLINE_IMAGES: Dict[Term, Tuple] = {}      # term -> ("ok", (R, H, M)) | ("bad", witness) | ("unknown", reason)
+
+
+def set_package(pkg) -> None:
+    global _PKG
+    _PKG = pkg
+    INLINE_IMAGES.clear()
+
+
+def _inline(t: Term) -> Term:
+    if _PKG is None:
+        return t
+    from ..vg import inline_calls
+    if any(x[0] == "call" and isinstance(x[1], str) and x[1] in _PKG.functions and x[1] != REMOVE_PBC_Q for x in walk(t)):
+        return inline_calls(_PKG, t)
+    return t
+
+
+REMOVE_PBC_Q = "PyMatterSim.utils.pbc.remove_pbc"
+
+
+_PROBES: Dict[Term, Tuple] = {}
+
+
+def inline_image(t: Term, record: bool = True):
+    """Is `t` an inline re-implementation of the minimum image  R - (mask (.) nearest(R H^-1)) H ?  The roles are read from
+    the term (R: the difference of positions, H: a snapshot's hmatrix, mask: ppp) and the expression is decided with the
+    frame-type system and the non-commutative algebra of the C02 check; on failure the extracted term is evaluated on concrete
+    cells and masks to obtain a witness."""
+    if t in INLINE_IMAGES:
+        return INLINE_IMAGES[t]
+    if not record and t in _PROBES:
+        return _PROBES[t]
+    from . import c02
+    res = ("unknown", "no roles")
+    try:
+        def pos_atom(z):
+            while True:
+                if z[0] == "sub":
+                    z = z[1]
+                elif z[0] == "call" and z[1] in ("numpy.delete", "numpy.array", "numpy.asarray", ".copy") and z[2]:
+                    z = z[2][0]
+                else:
+                    break
+            return z[0] == "attr" and z[2] == "positions"
+        diffs = []
+        for x in walk(t):
+            if x[0] == "bin" and x[1] == "-" and pos_atom(x[2]) and pos_atom(x[3]) and x not in diffs:
+                diffs.append(x)
+        if len(diffs) > 1:
+            diffs = []          # several distinct displacement terms: roles ambiguous
+        Hs_ = []
+        for x in walk(t):
+            if x[0] == "attr" and x[2] == "hmatrix" and x not in Hs_:
+                Hs_.append(x)
+        Ms_ = []
+        for x in walk(t):
+            if (x == ("sym", "ppp") or (x[0] == "attr" and x[2] == "ppp")) and x not in Ms_:
+                Ms_.append(x)
+        uses_round = any(x[0] == "call" and x[1] in c02.NEAREST + tuple(c02.DIRECTED) for x in walk(t)) if hasattr(c02, "DIRECTED") else False
+        Ls_ = []
+        for x in walk(t):
+            if x[0] == "attr" and x[2] == "boxlength" and x not in Ls_:
+                Ls_.append(x)
+        if len(diffs) == 1 and not Hs_ and len(Ls_) == 1 and uses_round:
+            # a per-axis wrap with the box lengths: exact for orthogonal cells only
+            M = Ms_[0] if Ms_ else ("sym", "<no-mask>")
+            wit = c02.numeric_witness(t, diffs[0], ("sym", "<H>"), M, lengths=Ls_[0])
+            if wit:
+                res = ("bad", "displacements are wrapped axis by axis with the box lengths, which ignores the tilt of a triclinic cell; " + wit)
+            else:
+                res = ("unknown", "per-axis wrap with box lengths: no differing cell found")
+        elif len(diffs) >= 1 and len(Hs_) == 1 and uses_round:
+            R, H = diffs[0], Hs_[0]
+            M = Ms_[0] if Ms_ else ("sym", "<no-mask>")
+            try:
+                r_, c_, tags = c02.frame_type(t, R, H, M, [])
+                typed = (r_, c_) == ("Pt", "Cart") and "Nearest:Frac" in tags and not [x for x in tags if x.startswith("Directed")] and ("Masked" in tags or "Where" in tags)
+                clash = None
+            except c02.Clash as e:
+                typed, clash = False, str(e)
+            except c02.Unknown as e:
+                typed, clash = None, None
+            alg = None
+            try:
+                got = sp.expand(c02.nc(t, R, H, M))
+                ref = c02.Rs - c02.Had(c02.Ms, c02.Rint(c02.Rs * c02.Hs ** -1)) * c02.Hs
+                d = sp.expand(got - ref).subs(c02.Hs ** -1 * c02.Hs, 1)
+                alg = sp.simplify(d) == 0
+            except Exception:  # noqa
+                alg = None
+            if alg is True and typed is not False:
+                res = ("ok", (R, H, M if Ms_ else None))
+            else:
+                wit = c02.numeric_witness(t, R, H, M)
+                if wit:
+                    res = ("bad", (clash + " ; " if clash else "") + wit)
+                elif clash:
+                    res = ("bad", clash)
+                else:
+                    res = ("unknown", "inline minimum image not reducible to R - (m (.) nearest(R H^-1)) H and no differing cell found")
+    except Exception as e:  # noqa
+        res = ("unknown", f"{type(e).__name__}: {e}")
+    if record or res[0] == "ok":
+        INLINE_IMAGES[t] = res
+    else:
+        _PROBES[t] = res
+    return res
+
+
+def find_inline_image(t: Term):
+    """Search a value for an inline minimum-image expression (a sub-term containing a rounding call and one displacement)
+    and decide it; the decisive verdict is recorded (and reported by the driver), probes are not."""
+    cands = [x for x in walk(t) if x[0] in ("bin", "call") and any(y[0] == "call" and y[1] in ("numpy.rint", "numpy.round", "numpy.around") for y in walk(x))
+             and any(y[0] == "attr" and y[2] == "positions" for y in walk(x))]
+    cands.sort(key=lambda x: len(show(x)))
+    seen = set()
+    for c in cands:
+        if c in seen:
+            continue
+        seen.add(c)
+        v = inline_image(_inline(c), record=False)
+        if v[0] in ("ok", "bad"):
+            INLINE_IMAGES[_inline(c)] = v
+            return v
+    return ("unknown", "no inline minimum image found")
+
+
 # ------------------------------------------------------------------ pair loop recognition
 def is_rowwise_norm(t: Term) -> Optional[Term]:
     """norm over the coordinate axis of an (n, d) array -> the array term."""
+    if t[0] == "call" and isinstance(t[1], str) and _PKG is not None and t[1] in _PKG.functions:
+        t = _inline(t)
     if t[0] == "call" and t[1] == "numpy.linalg.norm" and len(t[2]) == 1:
         ax = kw(t, "axis")
         if ax == C(1) or ax == C(-1):
@@ -45,6 +177,12 @@ def pbc_args(t: Term) -> Optional[Tuple[Term, Term, Optional[Term]]]:
         if full[0] is None or full[1] is None:
             return None
         return full[0], full[1], full[2]
+    # an inline (or helper) re-implementation of the minimum image, verified against the reference form
+    if _PKG is not None and t[0] in ("bin", "call") and any(x[0] == "attr" and x[2] == "positions" for x in walk(t)):
+        t2 = _inline(t)
+        v = inline_image(t2)
+        if v[0] == "ok":
+            return v[1]
     return None
 
 
